@@ -32,6 +32,11 @@ type stage struct {
 	amount       common.Fixed64
 	withdrawable bool
 	withdrawn    bool
+	// ready: withdrawable since an earlier block.  The node judges and books
+	// every transaction of a block against the state before the block, so a
+	// stage released by a tracking transaction can be paid from the next
+	// block on.
+	ready bool
 }
 
 type prop struct {
@@ -52,6 +57,17 @@ func (p *prop) expected() common.Fixed64 {
 	var s common.Fixed64
 	for _, st := range p.stages {
 		if st.withdrawable && !st.withdrawn {
+			s += st.amount
+		}
+	}
+	return s
+}
+
+// payable sums the stages a withdrawal in the current block pays.
+func (p *prop) payable() common.Fixed64 {
+	var s common.Fixed64
+	for _, st := range p.stages {
+		if st.ready && !st.withdrawn {
 			s += st.amount
 		}
 	}
@@ -193,10 +209,6 @@ func (m *model) apply(h uint32, txs []blockTx) []finding {
 						out = append(out, finding{"C29:tracking:progress-on-imprest-or-final-stage",
 							fmt.Sprintf("height %d: accepted %s on a stage of type %s", h, bt.desc, st.typ.Name()), p})
 					}
-					if st.withdrawable {
-						out = append(out, finding{"C29:tracking:progress-on-a-stage-that-is-already-withdrawable" + dupCause(bt.second),
-							fmt.Sprintf("height %d: accepted %s", h, bt.desc), p})
-					}
 					st.withdrawable = true
 				}
 			case payload.Finalized:
@@ -217,10 +229,13 @@ func (m *model) apply(h uint32, txs []blockTx) []finding {
 				// recipient output + fee
 				paid = tx.Outputs()[0].Value + (inSum - outSum)
 			}
-			e := p.expected()
+			e := p.payable()
 			cause := dupCause(withdrawsOf[pl.ProposalHash] > 1)
-			if e == 0 {
-				out = append(out, finding{"C29:withdraw:nothing-withdrawable" + cause,
+			if e == 0 && cause != "" {
+				out = append(out, finding{"C29:withdraw:stage-paid-twice:several-withdrawals-of-the-proposal-in-one-block",
+					fmt.Sprintf("height %d: accepted %s paying %s: the stages it pays were already paid by an earlier withdrawal of the same block; stages: %s", h, bt.desc, paid, p.render()), p})
+			} else if e == 0 {
+				out = append(out, finding{"C29:withdraw:nothing-withdrawable",
 					fmt.Sprintf("height %d: accepted %s paying %s although no stage of the proposal is withdrawable and unwithdrawn (a stage is paid twice or before it became withdrawable); stages: %s",
 						h, bt.desc, paid, p.render()), p})
 			} else if paid != e {
@@ -228,7 +243,7 @@ func (m *model) apply(h uint32, txs []blockTx) []finding {
 					fmt.Sprintf("height %d: accepted %s paying %s, withdrawable and unwithdrawn stages sum to %s; stages: %s", h, bt.desc, paid, e, p.render()), p})
 			}
 			for _, st := range p.stages {
-				if st.withdrawable {
+				if st.ready {
 					st.withdrawn = true
 				}
 			}
@@ -280,6 +295,11 @@ func (m *model) observeAfter(h uint32) {
 					break
 				}
 			}
+		}
+	}
+	for _, p := range m.props {
+		for _, st := range p.stages {
+			st.ready = st.withdrawable
 		}
 	}
 }
